@@ -448,6 +448,12 @@ def search_for_paths(logger: ConsolePrinter, processor: EYAMLProcessor,
                     yield YAMLPath(tmp_path)
                 continue
 
+            # Aliased values -- and everything beneath them -- are excluded
+            # unless the caller asks for them.
+            if (anchor_matched is AnchorMatches.UNSEARCHABLE_ALIAS
+                    and not include_value_aliases):
+                continue
+
             if isinstance(ele, (CommentedSeq, CommentedMap, CommentedSet)):
                 logger.debug(
                     "Recursing into complex data:", data=ele,
@@ -469,10 +475,6 @@ def search_for_paths(logger: ConsolePrinter, processor: EYAMLProcessor,
                     )
                     yield subpath
             elif search_values:
-                if (anchor_matched is AnchorMatches.UNSEARCHABLE_ALIAS
-                        and not include_value_aliases):
-                    continue
-
                 check_value = ele
                 if decrypt_eyaml and processor.is_eyaml_value(ele):
                     check_value = processor.decrypt_eyaml(ele)
@@ -588,6 +590,12 @@ def search_for_paths(logger: ConsolePrinter, processor: EYAMLProcessor,
                     yield YAMLPath(tmp_path)
                 continue
 
+            # Aliased values -- and everything beneath them -- are excluded
+            # unless the caller asks for them.
+            if (val_anchor_matched is AnchorMatches.UNSEARCHABLE_ALIAS
+                    and not include_value_aliases):
+                continue
+
             if isinstance(val, (CommentedSeq, CommentedMap, CommentedSet)):
                 logger.debug(
                     "Recursing into complex data:", data=val,
@@ -610,10 +618,6 @@ def search_for_paths(logger: ConsolePrinter, processor: EYAMLProcessor,
                     )
                     yield subpath
             elif search_values:
-                if (val_anchor_matched is AnchorMatches.UNSEARCHABLE_ALIAS
-                        and not include_value_aliases):
-                    continue
-
                 check_value = val
                 if decrypt_eyaml and processor.is_eyaml_value(val):
                     check_value = processor.decrypt_eyaml(val)
